@@ -1,5 +1,5 @@
 """Rules about the attribute-reading layer of core/src/parser.rs shared by several properties."""
-from . import vt
+from . import core, vt
 
 ATTR_STREAM = {'iter', 'into_iter', 'filter', 'inspect', 'rev', 'cloned', 'copied', 'enumerate', 'peekable', 'by_ref', 'as_ref', 'to_vec', 'clone'}
 TRUNC = {'find', 'first', 'next', 'nth', 'take', 'last', 'position', 'skip', 'get', 'take_while', 'skip_while', 'split_first', 'split_last', 'find_map', 'rposition', 'step_by', 'next_back', 'pop', 'truncate'}
@@ -27,11 +27,33 @@ def attr_level(v, params):
     return False
 
 
-def all_attrs_rule(ctx, rep, rule, files=('parser.rs',)):
-    """Every attribute look-up examines all attributes of the node: no truncating adapter on the attribute stream itself."""
+def all_attrs_rule(ctx, rep, rule, roots, floor, files=('parser.rs',)):
+    """Every attribute look-up the property depends on examines all attributes of the node: no truncating adapter on
+    the attribute stream itself.  `roots` are the look-ups the property's behaviour goes through; the rule covers them
+    and every attribute-reading helper they (transitively) delegate to — look-ups serving other properties are not
+    this property's business."""
+    fs = [f for f in ctx.astq['functions'] if any(f['file'].endswith(x) for x in files)]
+    by = {}
+    for f in fs:
+        by.setdefault(f['name'].split('::')[-1], []).append(f)
+    missing = [r for r in roots if r not in by]
+    if missing:
+        raise core.Incomplete(f'{rule}: attribute look-up(s) {missing} not found in {files}')
+    rel, todo = set(), list(roots)
+    while todo:
+        nm = todo.pop()
+        if nm in rel:
+            continue
+        rel.add(nm)
+        for f in by.get(nm, []):
+            for c in f['calls']:
+                cal = c.get('f') if c.get('recv') is None else None
+                cal = cal or (c.get('path') or '').split('::')[-1]
+                if cal in by and cal not in rel:
+                    todo.append(cal)
     n = 0
-    for f in ctx.astq['functions']:
-        if not any(f['file'].endswith(x) for x in files):
+    for f in fs:
+        if f['name'].split('::')[-1] not in rel:
             continue
         params = {p['name'] for p in f['params'] if is_attr_param(p)}
         if not params:
@@ -50,7 +72,7 @@ def all_attrs_rule(ctx, rep, rule, files=('parser.rs',)):
             rep.fail(rule, f"{f['name']}:all-attributes", f"{f['name']} truncates the attribute list itself with `{b['f']}` ({vt.show(b.get('recv'))[:70]}) — an attribute argument placed in a second #[serde(..)]/#[typeshare(..)] attribute (any spelling and order is in scope) is not seen", {'file': f['file'], 'line': b.get('line', f['line'])})
         else:
             rep.ok(rule, f"{f['name']}:all-attributes", 'every attribute of the node is examined', site)
-    rep.floor(rule, 'attribute-reading functions', n, 15)
+    rep.floor(rule, 'attribute-reading functions the property depends on', n, floor)
 
 
 def field_sites(ctx):
